@@ -531,9 +531,9 @@ var vpTemplates = []string{
 	// a chained call used as a statement, with multi-line callbacks in every link
 	/* 50 */ "local \x03 = 0\no:next(function(\x01)\n local \x02 = \x01\n return \x02 + \x03\nend):next(function(\x02)\n return \x02 + \x03\nend):catch(function(\x01)\n g = \x01\nend)\n",
 	// computed table keys that are compound expressions: names read only there
-	/* 51 */ "local \x01, \x02, \x03 = \"p\", 1, 2\nlocal t = { [\x01 .. \"k\"] = 1, [\x02 + 1] = 2, [-\x03] = 3, [(\x04)] = 4, [#\x05] = 5, [not \x06] = 6 }\ng = t\n",
+	/* 51 */ "local \x01, \x02, \x03 = \"p\", 1, 2\nlocal t = { [\x01 .. \"k\"] = 1, [\x02 + 1] = 2, [-\x03] = 3, [(\x04)] = 4, [#\x04] = 5, [not \x04] = 6 }\ng = t\n",
 	// re-assignment from a call that takes the old value: forward-declared locals, parameters, loop variables
-	/* 52 */ "local \x01\n\x01 = f(\x02)\nlocal function h(\x03, \x05)\n \x03 = g(\x03)\n \x05 = \x05:lower()\n for _, \x04 in ipairs(t) do\n  \x04 = trim(\x04)\n end\n return \x03, \x05\nend\n",
+	/* 52 */ "local \x01\n\x01 = f(\x02)\nlocal function h(\x03, \x02)\n \x03 = g(\x03)\n \x02 = \x02:lower()\n for _, \x04 in ipairs(t) do\n  \x04 = trim(\x04)\n end\n return \x03, \x02\nend\n",
 }
 
 // vpInstantiate fills the holes of template t with symbolic names; tag prefixes the variable names.
